@@ -140,6 +140,12 @@ namespace bloch::compiler {
             return false;
         };
 
+        // A type is inferred when either its primitive kind or its class is known; only a type
+        // that could not be inferred at all is exempt from the compatibility rules.
+        bool isInferredType(const SemanticAnalyser::TypeInfo& t) {
+            return t.value != ValueType::Unknown || !t.className.empty();
+        }
+
         bool isArrayTypeName(const std::string& name) {
             return name.size() >= 2 && name.rfind("[]") == name.size() - 2;
         }
@@ -449,7 +455,7 @@ namespace bloch::compiler {
         }
 
         if (expected.className.empty()) {
-            if (expected.value == ValueType::Unknown || actual.value == ValueType::Unknown)
+            if (expected.value == ValueType::Unknown || !isInferredType(actual))
                 return true;
             if (actual.className.empty())
                 return matchesPrimitive(expected.value, actual.value);
@@ -830,7 +836,7 @@ namespace bloch::compiler {
 
         if (auto primType = targetInfo.value; primType != ValueType::Unknown) {
             ValueType initT = initInfo.value;
-            if (!matchesPrimitive(primType, initT)) {
+            if (!matchesPrimitive(primType, initT) || !initInfo.className.empty()) {
                 if (primType == ValueType::Bit) {
                     if (auto lit = dynamic_cast<LiteralExpression*>(initializer)) {
                         if (lit->literalType == "int") {
@@ -848,7 +854,9 @@ namespace bloch::compiler {
                 }
                 throw BlochError(ErrorCategory::Semantic, line, column,
                                  "initialiser for '" + name + "' expected '" +
-                                     typeToString(primType) + "' but got '" + typeToString(initT) +
+                                     typeToString(primType) + "' but got '" +
+                                     (initInfo.className.empty() ? typeToString(initT)
+                                                                 : typeLabel(initInfo)) +
                                      "'");
             }
         } else if (!targetInfo.className.empty()) {
@@ -860,8 +868,7 @@ namespace bloch::compiler {
                     throw BlochError(ErrorCategory::Semantic, line, column,
                                      "initialiser for '" + name + "' cannot be null");
                 }
-            } else if (!isAssignableType(targetInfo, initInfo) &&
-                       initInfo.value != ValueType::Unknown) {
+            } else if (!isAssignableType(targetInfo, initInfo) && isInferredType(initInfo)) {
                 throw BlochError(
                     ErrorCategory::Semantic, line, column,
                     "initialiser for '" + name + "' expected '" + typeLabel(targetInfo) + "'");
@@ -1850,8 +1857,7 @@ namespace bloch::compiler {
                         throw BlochError(ErrorCategory::Semantic, node.line, node.column,
                                          "cannot assign null to '" + node.name + "'");
                     }
-                } else if (valType.value != ValueType::Unknown &&
-                           !isAssignableType(targetType, valType)) {
+                } else if (isInferredType(valType) && !isAssignableType(targetType, valType)) {
                     throw BlochError(ErrorCategory::Semantic, node.line, node.column,
                                      "assignment to '" + node.name + "' expects '" +
                                          typeLabel(targetType) + "'");
@@ -2519,8 +2525,7 @@ namespace bloch::compiler {
                         throw BlochError(ErrorCategory::Semantic, node.line, node.column,
                                          "cannot assign null to '" + node.name + "'");
                     }
-                } else if (valType.value != ValueType::Unknown &&
-                           !isAssignableType(targetType, valType)) {
+                } else if (isInferredType(valType) && !isAssignableType(targetType, valType)) {
                     throw BlochError(ErrorCategory::Semantic, node.line, node.column,
                                      "assignment to '" + node.name + "' expects '" +
                                          typeLabel(targetType) + "'");
